@@ -467,6 +467,10 @@ func propC10(w *World, r *Report) {
 		}
 		r.Check(okDefer, "D3", "the connection handler defers Stop() on the motion file recorder right after constructing it", w.Pos(ci.fn.Pos()), "")
 	}
+	// the directory the clean-up scans is the directory the recorders write to: the loaded output-dir setting is never
+	// rewritten after loading (a recorder that rewrote it, e.g. through a pointer copy of the configuration, would move
+	// the later connections' temporary files out of the clean-up's reach)
+	checkSettingsImmutable(w, r, "D5", "Config:OutputDir")
 }
 
 func instrIndex(in ssa.Instruction) int {
